@@ -1426,6 +1426,24 @@ fn c13(g: &mut Gen) {
             });
         }
     }
+    // whole sessions with the library on both sides (coq/proofs/Session.v): a bus owner's request encoders feed this
+    // context, accessor calls and rejected copies in between; the EID must be that of the last delivered Set / Force
+    let n = g.n(40, 2_000);
+    for _ in 0..n {
+        let cfg = gen_cfg(&mut g.rng);
+        g.case("session", &cfg, |s, r| {
+            let k = 2 + r.below(10);
+            for _ in 0..k {
+                match r.below(8) {
+                    0 => { let (h, e) = (r.chance(1, 2), r.cbyte()); s.op(Op::SetEid(h, e)); }
+                    1 => { if let Some(p) = encoder_packet(s, r) { let q = corrupt(r, &p); let b = pbuf(r, 64, 0); s.op(Op::Process(q, b)); } }
+                    2..=4 => conversation(s, r, 1),
+                    _ => { let id = 2 + r.below(5) as u32; conversation(s, r, id); }
+                }
+            }
+            conversation(s, r, 2);
+        });
+    }
     // every EID 0x01..0xFE through both assigning operations
     let cfg = gen_cfg(&mut g.rng);
     g.case("eids", &cfg, |s, r| {
